@@ -191,6 +191,8 @@ class Exec:
         self.trace_calls = []
         self.unordered_sites = []
         self.use_virtual = True
+        self.capture = None
+        self.sort_sites = []
 
     # ============================================================== solver helpers
     def base_axioms(self):
@@ -450,6 +452,9 @@ class Exec:
             fv = FuncV(s, env.get("__module__"), cls=env.get("__class__"), closure=e2,
                        key=(env["__fn__"].key + "." + s.name) if env.get("__fn__") is not None and env["__fn__"].key else None)
             e2[s.name] = fv
+            if self.capture is not None and fv.key == self.capture[0]:
+                self.capture[1].append((fv, st))
+                raise _Captured()
             yield ("fall", None, e2, st)
         elif isinstance(s, ast.Pass):
             yield ("fall", None, env, st)
@@ -1271,7 +1276,7 @@ class Exec:
                     yield BoundM(r, fv), st
         elif isinstance(r, Opaque):
             yield Builtin("opaque." + attr), st
-        elif isinstance(r, (tuple, list, EmptyColl, PyDict, PySet, str)) or type(r).__name__ in ("SuccessV", "FailureV", "MapView"):
+        elif isinstance(r, (tuple, list, EmptyColl, PyDict, PySet, str)) or type(r).__name__ in ("SuccessV", "FailureV", "MapView", "DatetimeV"):
             yield ValMethod(r, attr), st
         elif isinstance(r, Builtin):
             yield Builtin(r.name + "." + attr), st
@@ -1487,7 +1492,28 @@ class Exec:
             # zip(*sorted(...)) is the one starred call in the kernel
             if isinstance(e.func, ast.Name) and e.func.id == "zip" and len(e.args) == 1:
                 def on(v, st2):
-                    yield ("zipstar", v), st2
+                    if isinstance(v, (list, tuple)):
+                        if not v:
+                            yield Raised(ExcVal("ValueError"), e.lineno), st2
+                            return
+                        yield tuple(tuple(col) for col in zip(*v)), st2
+                        return
+                    if not (isinstance(v, Sym) and isinstance(v.ty, SeqTy) and isinstance(v.ty.elem, TupleTy)):
+                        raise PyvcUnsupported("zip(*x) of a non tuple-sequence")
+                    # zip(*[]) == () : the unpacking that always follows raises ValueError (modelled here, conservatively)
+                    st_ok, raises = self.guard(st2, Sym(BoolT, z3.Length(v.e) > 0), "ValueError", e.lineno)
+                    yield from raises
+                    if st_ok is None:
+                        return
+                    comps = []
+                    i = z3.Int(fresh_name("zi"))
+                    n = z3.Length(v.e)
+                    for k, et in enumerate(v.ty.elem.elems):
+                        c = z3.Const(fresh_name(f"unzip{k}"), z3.SeqSort(et.sort))
+                        st_ok = st_ok.assume(z3.Length(c) == n,
+                                             z3.ForAll([i], z3.Implies(z3.And(i >= 0, i < n), c[i] == v.ty.elem.get(v.e[i], k))))
+                        comps.append(Sym(SeqTy(et), c))
+                    yield tuple(comps), st_ok
                 yield from self.bind(self.expr(e.args[0].value, env, st), on)
                 return
             raise PyvcUnsupported("starred call")
@@ -1527,6 +1553,11 @@ class Exec:
                 yield args[1], st
             else:
                 raise PyvcUnsupported(f"call of type {f.name}")
+        elif isinstance(f, Sym) and isinstance(f.ty, OptTy) and isinstance(f.ty.elem, (AbstractTy, FuncTy)):
+            st_ok, raises = self.guard(st, v_not(v_is_none(f)), "TypeError", where)
+            yield from raises
+            if st_ok is not None:
+                yield from self.call_value(v_unwrap(f), args, kw, st_ok, where, env)
         elif isinstance(f, Sym) and isinstance(f.ty, (AbstractTy, FuncTy)):
             # calling an abstract callable value
             ret = f.ty.ret if isinstance(f.ty, FuncTy) else AbstractTy("Any")
@@ -1670,6 +1701,10 @@ class Exec:
 
 
 _MISSING = object()
+
+
+class _Captured(Exception):
+    pass
 
 
 class _SymbolicIter(Exception):
